@@ -199,6 +199,50 @@ func finishNum(r *vlib.Rng, nonneg bool, ip, fp string, trailingDot bool, exp in
 	return num{s: sb.String(), v: decValue(neg, ip, fp, exp), dotOrExp: doe}
 }
 
+// 2^128 - 2^103: the smallest magnitude that rounds to infinity in binary32
+var overflow32 = func() *big.Rat {
+	a := new(big.Int).Lsh(big.NewInt(1), 128)
+	b := new(big.Int).Lsh(big.NewInt(1), 103)
+	return new(big.Rat).SetInt(a.Sub(a, b))
+}()
+
+// numbers around the limits of binary32: overflow threshold, subnormals,
+// rounding ties, long mantissas, large exponents
+func genExtreme(r *vlib.Rng) num {
+	var ip, fp string
+	exp := 0
+	switch r.Intn(7) {
+	case 0: // near the overflow threshold 3.4028235677973366e38
+		ip, fp = "3", []string{"4028234", "4028235", "40282356", "40282357", "402823567", "4028236", "40282346638528859811704183484516925440"}[r.Intn(7)]
+		exp = 38
+	case 1: // subnormal range
+		ip, fp = strconv.Itoa(r.Range(1, 9)), digits(r, r.Range(0, 6))
+		exp = -r.Range(38, 47)
+	case 2: // large exponents either way
+		ip = strconv.Itoa(r.Range(1, 999))
+		exp = r.Range(-80, 60)
+	case 3: // long mantissa
+		ip, fp = digits(r, r.Range(1, 30)), digits(r, r.Range(0, 30))
+		exp = r.Range(-30, 10)
+	case 4: // ties of the 24-bit significand
+		ip = strconv.Itoa(16777216 + 2*r.Intn(50) + 1)
+		if r.Bool() {
+			fp = "0000000000000000000001"
+		}
+		exp = r.Range(0, 3)
+	case 5: // zero mantissa, any exponent
+		ip, fp = "0", "000"
+		exp = r.Range(-500, 500)
+	default:
+		ip, fp = "", digits(r, r.Range(1, 50))
+		exp = r.Range(-10, 40)
+	}
+	if ip == "" && fp == "" {
+		ip = "1"
+	}
+	return finishNum(r, false, ip, fp, false, exp, true)
+}
+
 func flagNum(r *vlib.Rng) num {
 	b := r.Intn(2)
 	return num{s: strconv.Itoa(b), v: new(big.Rat).SetInt64(int64(b)), flag: true}
@@ -947,6 +991,7 @@ func main() {
 			w.Add(badCase(d, origin))
 		case k < 18:
 			arc := r.Chance(1, 3)
+			extreme := r.Chance(1, 3)
 			var ns []num
 			m := r.Range(0, 9)
 			if arc {
@@ -955,6 +1000,8 @@ func main() {
 			for j := 0; j < m; j++ {
 				if arc && (j%7 == 3 || j%7 == 4) {
 					ns = append(ns, flagNum(r))
+				} else if extreme && r.Chance(1, 2) {
+					ns = append(ns, genExtreme(r))
 				} else {
 					ns = append(ns, genNum(r, false))
 				}
@@ -977,14 +1024,27 @@ func main() {
 					fin = false
 				}
 			}
-			if !fin {
+			if !fin && err == nil {
 				continue
 			}
 			for _, v := range vals {
 				outs = append(outs, q32l(v))
 			}
-			w.Add(vlib.Case{Kind: "points", Coq: fmt.Sprintf("CPoints %s %s %s %s %s", vlib.Bool(arc), vlib.List(qs), coqBytes(d), vlib.Bool(err == nil), vlib.List(outs)),
-				Desc: map[string]interface{}{"s": d, "arc": arc, "out": vals, "err": fmt.Sprint(err)}, Nontrivial: m >= 2})
+			inRange := true
+			for _, a := range ns {
+				if new(big.Rat).Abs(a.v).Cmp(overflow32) >= 0 {
+					inRange = false
+				}
+			}
+			tags := []string{}
+			if extreme {
+				tags = append(tags, "extreme")
+			}
+			if !inRange {
+				tags = append(tags, "out-of-range")
+			}
+			w.Add(vlib.Case{Kind: "points", Coq: fmt.Sprintf("CPoints %s %s %s %s %s %s", vlib.Bool(arc), vlib.Bool(inRange), vlib.List(qs), coqBytes(d), vlib.Bool(err == nil), vlib.List(outs)),
+				Desc: map[string]interface{}{"s": d, "arc": arc, "out": vals, "err": fmt.Sprint(err)}, Nontrivial: m >= 2, Tags: tags})
 		default: // viewBox / preserveAspectRatio through the hook (C17's VerifViewboxTransform)
 			pos := []string{"Min", "Mid", "Max"}
 			xi, yi := r.Intn(3), r.Intn(3)
